@@ -292,6 +292,11 @@ func (r *receiver) run(ctx context.Context) error {
 							}
 						}
 						metadataParents.clear()
+						if isDir {
+							// the directory itself was on the stack and has
+							// just been forwarded with it
+							continue
+						}
 					}
 				}
 
